@@ -356,7 +356,11 @@ func (s *Session) tryReplay(u *Unit, o *Obligation) *ReplayResult {
 		rr.Note = "template: " + err.Error()
 		return rr
 	}
-	data := map[string]string{"Obligation": o.Name}
+	fn := u.Key
+	if i := strings.LastIndex(fn, "."); i >= 0 {
+		fn = fn[i+1:]
+	}
+	data := map[string]string{"Obligation": o.Name, "Func": fn}
 	for k, v := range vals {
 		data[k] = v
 	}
